@@ -14,17 +14,21 @@ import (
 
 // Block is one block of a history, as plain data: leaves are named by insertion slot.
 type Block struct {
-	Del []int  `json:"del,omitempty"` // slots to delete, in request order
-	Add int    `json:"add,omitempty"` // number of leaves appended
-	Rem []int  `json:"rem,omitempty"` // ascending indexes (within the adds) to remember
+	Del []int `json:"del,omitempty"` // slots to delete, in request order
+	Add int   `json:"add,omitempty"` // number of leaves appended
+	Rem []int `json:"rem,omitempty"` // ascending indexes (within the adds) to remember
 	// Reuse: pairs {add index, slot}: that added leaf carries the hash of the leaf of that slot, which is
 	// dead once this block's deletions are done (spent in this very block or earlier) and whose hash
 	// is not the hash of any live leaf: a spent leaf re-created with the same hash.
 	Reuse [][2]int `json:"reuse,omitempty"`
-	Prune []int `json:"prune,omitempty"` // slots a partial map forest is asked to Prune right before this block (remembered, live)
-	Salt int   `json:"salt,omitempty"` // branch id: added leaves hash as LeafHash(Salt*1e6+slot), so that leaves re-added on another branch after an undo differ
-	DM  string `json:"dm,omitempty"`  // deletion mode that produced Del (coverage label)
-	AM  string `json:"am,omitempty"`  // addition mode that produced Add (coverage label)
+	// Bad: right before this block every map forest is handed a block it must REFUSE: Modify(no adds,
+	// hashes of these live slots followed by one hash that is not a leaf of the forest). The refusal must
+	// leave everything as it was (the leaves are spent for real by later blocks).
+	Bad   []int  `json:"bad,omitempty"`
+	Prune []int  `json:"prune,omitempty"` // slots a partial map forest is asked to Prune right before this block (remembered, live)
+	Salt  int    `json:"salt,omitempty"`  // branch id: added leaves hash as LeafHash(Salt*1e6+slot), so that leaves re-added on another branch after an undo differ
+	DM    string `json:"dm,omitempty"`    // deletion mode that produced Del (coverage label)
+	AM    string `json:"am,omitempty"`    // addition mode that produced Add (coverage label)
 }
 
 type limits struct {
@@ -370,13 +374,13 @@ func genHistory(t *rapid.T, lim limits, remember bool) []Block {
 
 // blockShape classifies what a block does to the forest (used for non-trivial rules).
 type blockShape struct {
-	deletes, adds      bool
-	emptiesTree        bool // some tree has survivors before and none after the deletions
-	overwritesEmpty    bool // an empty root is popped by the additions
-	crossesPow2        bool // TreeRows changes
-	climbed            bool // after the block some leaf sits at row >= 2
-	delRoot, delSibs   bool
-	delAll             bool
+	deletes, adds    bool
+	emptiesTree      bool // some tree has survivors before and none after the deletions
+	overwritesEmpty  bool // an empty root is popped by the additions
+	crossesPow2      bool // TreeRows changes
+	climbed          bool // after the block some leaf sits at row >= 2
+	delRoot, delSibs bool
+	delAll           bool
 }
 
 func shapeOf(before *model.Forest, b Block) blockShape {
@@ -441,9 +445,19 @@ func shapeOf(before *model.Forest, b Block) blockShape {
 // not be affected.
 func addPrunes(t *rapid.T, blocks []Block) {
 	tracked := map[int]bool{}
+	live := map[int]bool{}
 	n := 0
 	for i := range blocks {
 		b := &blocks[i]
+		if i > 0 && len(live) > 0 && rapid.IntRange(0, 4).Draw(t, "bad-here") == 0 {
+			var l []int
+			for s := range live {
+				l = append(l, s)
+			}
+			sort.Ints(l)
+			k := rapid.IntRange(1, min(3, len(l))).Draw(t, "nbad")
+			b.Bad = rapid.Permutation(l).Draw(t, "badperm")[:k]
+		}
 		if i > 0 && len(tracked) > 0 && rapid.IntRange(0, 2).Draw(t, "prune-here") == 0 {
 			var l []int
 			for s := range tracked {
@@ -461,9 +475,13 @@ func addPrunes(t *rapid.T, blocks []Block) {
 		}
 		for _, d := range b.Del {
 			delete(tracked, d)
+			delete(live, d)
 		}
 		for _, r := range b.Rem {
 			tracked[n+r] = true
+		}
+		for k := 0; k < b.Add; k++ {
+			live[n+k] = true
 		}
 		n += b.Add
 	}
